@@ -356,19 +356,8 @@ def run(repo, chk):
                 ok = False
             chk.expect(ok, 'C09.M2', 'bool_expr_branch[generic]::polarity', f'non-zero is true: {names}', GEN)
     chk.floor('comparison branch paths', n_cmp, 1)
-    # Not / And / Or / literal structure of bool_expr_branch
-    bfn = gf.methods['bool_expr_branch']
-    calls = [n for n in ast.walk(bfn) if isinstance(n, ast.Call) and src(n.func) == 'self.bool_expr_branch']
-    texts = [[src(a) for a in c.args] for c in calls]
-    want = [
-        ['expr.arg', 'if_false', 'if_true'],
-        ['expr.left', 'self.goto(left_is_true)', 'if_false if false_end_goto else if_false + tuple(self.goto(and_end))'],
-        ['expr.right', 'if_true', 'if_false'],
-        ['expr.left', 'if_true if true_end_goto else if_true + tuple(self.goto(or_end))', 'self.goto(left_is_false)'],
-        ['expr.right', 'if_true', 'if_false'],
-    ]
-    chk.expect(texts == want, 'C09.M2', 'bool_expr_branch::short-circuit structure',
-               f'not swaps the continuations; and/or evaluate the right side only when needed: {texts}', GEN)
+    # Not / And / Or structure of bool_expr_branch (not swaps the continuations; and / or evaluate the right side only when
+    # needed; the end label is omitted exactly when the outcome leaves by a goto): decided by meaning, see condsim above
     for p, ev in gf.inlined('bool_expr_branch'):
         conds = _efg.Conds(ev)
         if conds.get('type(expr) is ast.BoolValue'):
@@ -504,6 +493,11 @@ def run(repo, chk):
     chk.expect(safe_err is None and sorted(safe_true) == want_safe, 'C09.M2', 'is_safe',
                f'is_safe accepts {sorted(safe_true)}; only literals and plain variable reads ({want_safe}) can be evaluated without '
                f'touching registers or globals {safe_err or ""}', GEN)
+
+    # ---------------- M2 by meaning ------------------------------------------------------------
+    # the control skeleton the condition lowerings build, simulated under the jump / halt lemmas for every truth assignment
+    from .. import condsim
+    chk.count('condition_simulations', condsim.decide(repo, chk, 'C09.M2', 'C09.M2', GEN))
 
     # ---------------- M3 -------------------------------------------------------------------
     for p, ev in gf.inlined('un_op_reg_arg'):
